@@ -1544,3 +1544,64 @@ Proof.
   rewrite (chan_raw pyfloat read_nt read_ttl gunzip unxz unzip rdf_parse o _ _ _ (Fam_tsv pyfloat read_nt)).
   unfold tsv_doc. rewrite lines_raw_render by exact Hok. rewrite (tsv_lines_nonblank g Hd), H1. reflexivity.
 Qed.
+
+(** ** K. channel independence at the level of the extracted shapes, line-based channels *)
+
+Section ChannelIndependence.
+  Variable pyfloat : str -> option bool.
+  Variable read_nt read_ttl : list str -> rd.
+  Variable gunzip unxz : str -> option str.
+  Variable unzip : str -> option (list (str * str)).
+  Variable rdf_parse : str -> str -> option (list rtriple).
+  Variable fa : FreqAlg.
+
+  Notation chan := (channel pyfloat read_nt read_ttl gunzip unxz unzip rdf_parse).
+  Notation passes1 := (passes pyfloat read_nt read_ttl gunzip unxz unzip rdf_parse).
+
+  (** whatever the raw string delivers ([ms], denoting [G]), every partition of
+      its lines into plain / gz / xz files yields, over the two independently
+      built yielders, the extraction of the single graph [G] *)
+  Theorem channel_independent_files c thr fmt read (o o1 o2 : porc) cm lss stored ms G :
+    line_family pyfloat read_nt fmt read -> line_compositional read ->
+    blanks_harmless read (List.concat lss) -> cm_plain cm ->
+    Forall (Forall line_ok) lss ->
+    Forall2 (stored_as gunzip unxz cm) (map render_lines lss) stored ->
+    rd_stream (chan o fmt None (SRaw (render_lines (List.concat lss)))) = inl ms ->
+    graph_of_m ms = Some G ->
+    run_over_passes fa c thr (passes1 o1 o2 fmt cm (SFiles stored)) = Some (run_shapes fa c thr G).
+  Proof.
+    intros F LC Hb C Hok Hst Hraw HG. unfold run_over_passes, graphs_of_passes, passes. cbn [fst snd].
+    rewrite (partition_invisible_files pyfloat read_nt read_ttl gunzip unxz unzip rdf_parse fmt read o1 o cm lss stored F LC Hb C Hok Hst).
+    rewrite (partition_invisible_files pyfloat read_nt read_ttl gunzip unxz unzip rdf_parse fmt read o2 o cm lss stored F LC Hb C Hok Hst).
+    rewrite Hraw, HG. reflexivity.
+  Qed.
+
+  Lemma tsv_lines_all_nonblank g : tsv_dom g = true -> Forall (fun l => nonblank l = true) (map tsv_line_of g).
+  Proof.
+    unfold tsv_dom. induction g as [|t g IH]; intros H; [constructor|].
+    cbn [forallb] in H. apply andb_true_iff in H. destruct H as [Ht Hg]. cbn [map]. constructor; [|exact (IH Hg)].
+    unfold nonblank. rewrite (strip_tsv_line t Ht).
+    assert (str_eqb (tsv_line_of t) [] = false) as -> by (unfold tsv_line_of; destruct (a_s t); reflexivity).
+    reflexivity.
+  Qed.
+
+  (** the TSV channel, closed: for every graph of the domain and every
+      partition of its TSV lines into files the extraction is that of the
+      graph's N-Triples semantics *)
+  Theorem tsv_channel_independent c thr (o1 o2 : porc) cm g lss stored :
+    tsv_dom g = true -> Forall line_ok (map tsv_line_of g) ->
+    List.concat lss = map tsv_line_of g -> cm_plain cm ->
+    Forall2 (stored_as gunzip unxz cm) (map render_lines lss) stored ->
+    run_over_passes fa c thr (passes1 o1 o2 (Str "tsv_spo") cm (SFiles stored)) = Some (run_shapes fa c thr (kinded g)).
+  Proof.
+    intros Hd Hok Hc C Hst.
+    destruct (tsv_channel_kinded pyfloat read_nt read_ttl gunzip unxz unzip rdf_parse o1 g Hd Hok) as [H1 H2].
+    assert (Hoks : Forall (Forall line_ok) lss).
+    { clear Hst. rewrite <- Hc in Hok. clear Hc. induction lss as [|ls lss IH]; [constructor|].
+      cbn [List.concat] in Hok. apply Forall_app in Hok. destruct Hok. constructor; auto. }
+    apply (channel_independent_files c thr (Str "tsv_spo") (read_tsv pyfloat) o1 o1 o2 cm lss stored (map m_of g) (kinded g)
+             (Fam_tsv pyfloat read_nt) (read_tsv_compositional pyfloat)); try assumption.
+    - right. rewrite Hc. apply tsv_lines_all_nonblank. exact Hd.
+    - rewrite Hc. exact H1.
+  Qed.
+End ChannelIndependence.
